@@ -167,7 +167,7 @@ class Job:
     def env(self):
         e = child_env(self.config, self.extra_env)
         if self.variant.startswith("race"):
-            e["GORACE"] = "halt_on_error=0 log_path=%s" % self.racelog
+            e["GORACE"] = "halt_on_error=0 exitcode=0 log_path=%s" % self.racelog
         if self.procs:
             e["GOMAXPROCS"] = str(self.procs)
         return e
